@@ -60,7 +60,8 @@ pub fn check_spec_file(c: &SpecFile) -> CheckResult {
     let p = c.plain.bytes(); let lens = legal_chunking(p.len(), &c.head, c.tail);
     match &c.pass {
         None => {
-            let s = kx::ident(c.s, "S"); let r = kx::ident(c.r, "R"); let e = gen::key32(c.e, "E"); let pl = gen::key32(c.p, "P");
+            // one file in eight is addressed to the sender's own key (sender = recipient is a legitimate use)
+            let s = kx::ident(c.s, "S"); let r = if c.r % 8 == 0 { s.clone() } else { kx::ident(c.r, "R") }; let e = gen::key32(c.e, "E"); let pl = gen::key32(c.p, "P");
             let (mut epub, mut spub) = (kspec::x25519_base(&e), s.pk); if c.noncanon == 1 { epub[31] |= 0x80; } if c.noncanon == 2 { spub[31] |= 0x80; }
             let f = if c.noncanon == 0 { kspec::key_file(&s.sk, &r.pk, &e, &pl, &p, &lens) } else { let (msg, h) = kspec::key_header(&s.sk, &spub, &r.pk, &e, &epub, &pl); let mut f = kspec::MAGIC_KEY.to_vec(); f.extend_from_slice(&msg); kspec::write_chunks(&mut f, &kspec::file_key(&pl, &h), &[], &p, &lens); f };
             let (res, sh) = kx::key_decrypt(&f, &c.crs, &WSched::all(), None, &r.sk, &r.pk);
